@@ -128,18 +128,18 @@ theorem filesData_compactSetFiles {fs : List TsmFile} {idxs : List Nat} {e : Ent
   simp only [filesData, List.mem_flatMap] at h
   obtain ⟨f, hf, he⟩ := h
   obtain ⟨p, hp, hfp⟩ := hf
-  have hpmem : p.1 ∈ fs := by
-    have := List.mem_zipIdx hp
-    exact List.mem_of_getElem? (by simpa using this.2.2) |> fun h => h
+  have hzip : ∀ q ∈ fs.zipIdx, q.1 ∈ fs := by
+    intro q hq
+    have := List.mem_map_of_mem (f := Prod.fst) hq
+    simpa using this
+  have hpmem : p.1 ∈ fs := hzip p hp
   split at hfp
   · have : e ∈ filesData (compactOut ((fs.zipIdx.filter fun p => idxs.contains p.2).map (·.1))) :=
       mem_filesData.mpr ⟨f, hfp, he⟩
     apply filesData_sub _ (filesData_compactOut this)
     intro g hg
     obtain ⟨q, hq, rfl⟩ := List.mem_map.mp hg
-    have hq' := (List.mem_filter.mp hq).1
-    have := List.mem_zipIdx hq'
-    exact List.mem_of_getElem? (by simpa using this.2.2)
+    exact hzip q (List.mem_filter.mp hq).1
   · split at hfp
     · cases hfp
     · simp only [List.mem_singleton] at hfp
@@ -220,7 +220,7 @@ theorem walEntries_dropLastRec {closed : List Segment} {cur : Option Segment} {e
       simp only [dropLastRec, Option.toList_some, walEntries, segRecs, List.flatMap_cons, List.flatMap_nil,
         List.append_nil, List.mem_flatMap] at h ⊢
       obtain ⟨r, hr, he⟩ := h
-      exact ⟨r, List.mem_of_mem_dropLast hr, he⟩
+      exact ⟨r, (List.dropLast_sublist _).subset hr, he⟩
 
 /-! ### every step keeps provenance -/
 
@@ -229,7 +229,7 @@ theorem src_openWith {s : State} {W : Log} (fs : List TsmFile) (segs : List Segm
   have hsub : ∀ e ∈ walEntries (segs.filter fun g => !g.recs.isEmpty), e ∈ W :=
     fun e he => hw e (walEntries_sub (fun g hg => (List.mem_filter.mp hg).1) he)
   rw [src_iff]
-  refine ⟨fun e he => hsub e (mem_replay he), fun e he => by cases he, hf, fun e he => by cases he, ?_⟩
+  refine ⟨fun e he => hsub e (mem_replay he), (fun e he => by cases he), hf, (fun e he => by cases he), ?_⟩
   intro e he
   have : (openWith s fs segs).wal = segs.filter fun g => !g.recs.isEmpty := by
     simp only [openWith, State.wal]; exact dropLast_append_getLast? _
@@ -243,7 +243,7 @@ theorem src_stepSnapBegin {s : State} {W : Log} (h : Src s W) : Src (stepSnapBeg
   unfold stepSnapBegin
   cases s.phase <;> simp only
   · rw [src_iff]
-    exact ⟨fun e he => by cases he, h1, h3, h4, by rw [← walEntries_walClose s] at h5; exact h5⟩
+    exact ⟨(fun e he => by cases he), h1, h3, h4, by rw [← walEntries_walClose s] at h5; exact h5⟩
   · rw [src_iff]
     exact ⟨h1, h2, h3, h4, by rw [← walEntries_walClose s] at h5; exact h5⟩
   · rw [src_iff]
@@ -266,13 +266,13 @@ theorem src_stepSnapStep {s : State} {W : Log} (h : Src s W) : Src (stepSnapStep
       simp only [Option.toList_some, filesData, List.flatMap_cons, List.flatMap_nil, List.append_nil] at he
       exact h2 e (mem_canon he)
   · rw [src_iff]
-    refine ⟨h1, h2, ?_, fun e he => by cases he, h5⟩
+    refine ⟨h1, h2, ?_, (fun e he => by cases he), h5⟩
     intro e he
     rw [filesData_append, List.mem_append] at he
     rcases he with he | he
     · exact h3 e he
     · exact h4 e he
-  · rw [src_iff]; exact ⟨h1, fun e he => by cases he, h3, h4, h5⟩
+  · rw [src_iff]; exact ⟨h1, (fun e he => by cases he), h3, h4, h5⟩
   · rw [src_iff]
     refine ⟨h1, h2, h3, h4, ?_⟩
     intro e he
@@ -301,6 +301,24 @@ theorem src_files {s : State} {W : Log} (h : Src s W) (fs : List TsmFile)
   rw [src_iff]
   exact ⟨h1, h2, fun e he => h3 e (hf e he), h4, h5⟩
 
+def delState (s : State) (ss : List Nat) (lo hi : Int) : State :=
+  { s with files := s.files.map (addTomb ss lo hi),
+           hot := s.hot.filter (fun e => !covered ss lo hi e.key e.ts) }
+
+theorem walEntries_of_fields {a b : State} (h1 : a.walClosed = b.walClosed) (h2 : a.walCur = b.walCur) :
+    walEntries a.wal = walEntries b.wal := by
+  simp only [State.wal, h1, h2]
+
+theorem walEntries_stepDelete {s : State} {ss : List Nat} {lo hi : Int} {e : Entry}
+    (h : e ∈ walEntries (stepDelete s ss lo hi).wal) : e ∈ walEntries s.wal := by
+  by_cases hk : (hotKeys s.hot ss).isEmpty = true
+  · rw [stepDelete_eq_noKeys hk] at h; exact h
+  · have hk' : (hotKeys s.hot ss).isEmpty = false := by simpa using hk
+    rw [stepDelete_eq_keys hk'] at h
+    have h2 : e ∈ walEntries (walAppend (delState s ss lo hi) (.delRange (hotKeys s.hot ss) lo hi)).wal := h
+    rw [walEntries_walAppend] at h2
+    simpa [recEntries, delState, State.wal] using h2
+
 /-- **Provenance is preserved by every operation**; a write adds its batch. -/
 theorem src_step {s : State} {W : Log} (h : Src s W) (op : Op) :
     Src (step s op).1 (W ++ (match op with | .write es => es | _ => [])) := by
@@ -326,21 +344,13 @@ theorem src_step {s : State} {W : Log} (h : Src s W) (op : Op) :
     simp only [step, List.append_nil]
     split
     · exact h
-    · unfold stepDelete
-      simp only
-      split
-      · rw [src_iff]
-        exact ⟨fun e he => h1 e (List.mem_filter.mp he).1, h2,
-          by intro e he; rw [filesData_addTomb] at he; exact h3 e he, h4, h5⟩
-      · rw [src_iff]
-        refine ⟨fun e he => h1 e (List.mem_filter.mp he).1, h2,
-          by intro e he; rw [filesData_addTomb] at he; exact h3 e he, h4, ?_⟩
-        intro e he
-        have he' : e ∈ walEntries (walAppend { s with files := s.files.map (addTomb ss lo hi),
-            hot := s.hot.filter fun e => !covered ss lo hi e.key e.ts } (.delRange (hotKeys s.hot ss) lo hi)).wal := he
-        rw [walEntries_walAppend] at he'
-        simp only [recEntries, List.append_nil] at he'
-        exact h5 e he'
+    · rw [src_iff]
+      refine ⟨?_, ?_, ?_, ?_, ?_⟩
+      · intro e he; rw [stepDelete_hot] at he; exact h1 e (List.mem_filter.mp he).1
+      · rw [stepDelete_snap]; exact h2
+      · intro e he; rw [stepDelete_files, filesData_addTomb] at he; exact h3 e he
+      · rw [stepDelete_snapTmp]; exact h4
+      · intro e he; exact h5 e (walEntries_stepDelete he)
   | snapBegin => simp only [step, List.append_nil]; exact src_stepSnapBegin h
   | snapFail => simp only [step, List.append_nil]; exact src_stepSnapFail h
   | snapStep => simp only [step, List.append_nil]; exact src_stepSnapStep h
